@@ -17,4 +17,30 @@ CHECKS = {
              "checks": ["c11-single", "c11-payload", "c11-wt-frame", "c11-arbitrary-bytes", "c11-wt-alloc"]},
         ],
     },
+    "C19": {
+        "level": "exploration",
+        "groups": [
+            {"name": "c19", "run": "^TestC19_", "shards": {"quick": 4, "thorough": 16},
+             "timeout": {"quick": 600, "thorough": 3000},
+             "checks": ["c19-queue"]},
+        ],
+    },
+    "C09": {
+        "level": "exploration",
+        "groups": [
+            {"name": "c09", "run": "^TestC09_", "shards": {"quick": 4, "thorough": 16},
+             "timeout": {"quick": 600, "thorough": 3000},
+             "fuzz": ["FuzzC09"], "fuzztime": 180,
+             "checks": ["c09-roundtrip"]},
+        ],
+    },
+    "C10": {
+        "level": "exploration",
+        "groups": [
+            {"name": "c10", "run": "^TestC10_", "shards": {"quick": 4, "thorough": 16},
+             "timeout": {"quick": 600, "thorough": 3000},
+             "fuzz": ["FuzzC10"], "fuzztime": 180,
+             "checks": ["c10-parser"]},
+        ],
+    },
 }
